@@ -227,3 +227,184 @@ def tail_complete(rep, prog, rule):
                         "remainder (up to %d remain): the other pixels of the tail are not written"
                         % (f.name, K, K - 1))
     rep.floor(rule, "single-element tails after chunked loops", n, 2)
+
+
+def zip_store(rep, prog, rule, floor=20):
+    """every destination element a two-operand loop takes is written"""
+    rep.rule(rule, "a loop that takes its items from a pair of iterators -- a source element and a "
+             "`&mut` destination element (`src.iter().zip(dst)`, chunk pairs) -- writes through the "
+             "destination element, or hands it to a callee, on EVERY path of its body: a `continue` "
+             "(or an early `break` / `return`) taken before the store leaves that destination pixel "
+             "with whatever the buffer held before, although the operation is not in place -- "
+             "`if alpha == MAX { continue }` is a correct shortcut in the in-place routine and a hole "
+             "in the two-image one. In-place loops (one `&mut` item, no partner) are not in scope")
+    n = 0
+    for f in sorted(prog.fns.values(), key=lambda x: x.id):
+        if f.kind == "closure" or not (f.file or "").startswith("src/"):
+            continue
+        for c in f.calls():
+            if c.method != "next" or c.target is None:
+                continue
+            rty = f.local_ty(c.dest[0]) if c.dest and len(c.dest) == 1 else ""
+            m = re.match(r"^(?:std|core)::option::Option<\((.*)\)>$", rty or "")
+            if not m:
+                continue
+            parts = _split_top(m.group(1))
+            muts = [i for i, p in enumerate(parts) if p.strip().startswith("&mut ")]
+            if len(parts) < 2 or not muts:
+                continue
+            # the partner: an element that refers to another buffer (a counter from enumerate()
+            # does not make the loop a two-operand one)
+            if not any(i not in muts and re.match(r"^\s*(&|\[&)", p_) for i, p_ in enumerate(parts)):
+                continue
+            # locals bound to the &mut element(s) of the item
+            res = c.dest[0]
+            binds = []
+            for b, blk in enumerate(f.blocks):
+                if blk["c"]:
+                    continue
+                for j, st in enumerate(blk["s"]):
+                    if st[0] == "a" and len(st[1]) == 1 and st[2][0] == "use":
+                        pl = st[2][1][1] if st[2][1][0] in ("c", "m") else None
+                        if pl and pl[0] == res and (f.local_ty(st[1][0]) or "").startswith("&mut "):
+                            binds.append((b, j, st[1][0]))
+            for (b0, j0, L) in binds:
+                n += 1
+                rep.touch(f)
+                key = "%s|%s" % (f.name, f.local_name(L) or "_%d" % L)
+                alias = {L}
+                changed = True
+                while changed:
+                    changed = False
+                    for blk in f.blocks:
+                        if blk["c"]:
+                            continue
+                        for st in blk["s"]:
+                            if st[0] == "a" and len(st[1]) == 1 and st[1][0] not in alias:
+                                rv = st[2]
+                                src = None
+                                if rv[0] == "ref" and rv[1] in ("mut", "two_phase"):
+                                    src = rv[2][0]
+                                elif rv[0] == "use" and rv[1][0] in ("c", "m") and len(rv[1][1]) == 1:
+                                    src = rv[1][1][0]
+                                elif rv[0] in ("cast", "rawptr", "addr") and len(rv) > 2:
+                                    try:
+                                        src = rv[2][1][0] if rv[2][0] in ("c", "m") else rv[2][0]
+                                    except Exception:
+                                        src = None
+                                if src in alias and ((f.local_ty(st[1][0]) or "").startswith(("&mut", "*mut"))):
+                                    alias.add(st[1][0])
+                                    changed = True
+                                elif rv[0] == "agg" and any(o[0] in ("c", "m") and o[1] and o[1][0] in alias
+                                                            for o in (rv[4] or [])):
+                                    alias.add(st[1][0])      # `[dst_row]`, `(a, dst)` handed on
+                                    changed = True
+
+                def stores(b, frm=0):
+                    blk = f.blocks[b]
+                    for j, st in enumerate(blk["s"]):
+                        if j < frm:
+                            continue
+                        if st[0] == "a" and st[1][0] in alias and "*" in st[1][1:]:
+                            return True
+                    t = blk["t"]
+                    if t[0] == "call":
+                        for a in t[2]:
+                            if a[0] in ("c", "m") and a[1] and a[1][0] in alias:
+                                return True
+                    return False
+
+                head = c.bb
+                # an inner loop whose body stores counts as a store (it runs over the components
+                # of a pixel: a fixed, non-zero number of rounds)
+                inner = _cycles_without(f, head)
+                storing_cycle = set()
+                for comp in inner:
+                    if any(stores(k) for k in comp):
+                        storing_cycle |= comp
+                if stores(b0, j0 + 1):
+                    rep.ok(rule, key, c.at, "written in the block that binds it")
+                    continue
+                seen, todo, leak = {b0}, [s for s in f.succ[b0]], None
+                while todo and leak is None:
+                    k = todo.pop()
+                    if k in seen:
+                        continue
+                    seen.add(k)
+                    if k == head or f.term(k)[0] == "ret":
+                        leak = k
+                        break
+                    if stores(k) or k in storing_cycle:
+                        continue
+                    todo.extend(f.succ[k])
+                if leak is None:
+                    rep.ok(rule, key, c.at, "every path of the body writes through it")
+                else:
+                    rep.bad(rule, key + "|skipped", c.at,
+                            "%s: a path of the loop body goes from the binding of `%s` back to the loop "
+                            "head (or out of the function) without a store through it: that destination "
+                            "element keeps its previous content although its partner element was read "
+                            "from another buffer" % (f.name, f.local_name(L) or "_%d" % L))
+    rep.floor(rule, "two-operand loops with a &mut element", n, floor)
+
+
+def _split_top(s):
+    out, depth, cur = [], 0, ""
+    for ch in s:
+        if ch in "<([":
+            depth += 1
+        elif ch in ">)]":
+            depth -= 1
+        if ch == "," and depth == 0:
+            out.append(cur)
+            cur = ""
+        else:
+            cur += ch
+    if cur.strip():
+        out.append(cur)
+    return out
+
+
+def _cycles_without(f, head):
+    """strongly connected components (size > 1 or self-loop) of the CFG with `head` removed"""
+    n = len(f.blocks)
+    succ = [[s_ for s_ in f.succ[b] if s_ != head] if b != head else [] for b in range(n)]
+    index, low, on, stack, out = {}, {}, set(), [], []
+    counter = [0]
+    for root in range(n):
+        if root in index or root == head:
+            continue
+        work = [(root, 0)]
+        while work:
+            v, i = work.pop()
+            if i == 0:
+                index[v] = low[v] = counter[0]
+                counter[0] += 1
+                stack.append(v)
+                on.add(v)
+            recurse = False
+            for k in range(i, len(succ[v])):
+                w = succ[v][k]
+                if w not in index:
+                    work.append((v, k + 1))
+                    work.append((w, 0))
+                    recurse = True
+                    break
+                elif w in on:
+                    low[v] = min(low[v], index[w])
+            if recurse:
+                continue
+            if low[v] == index[v]:
+                comp = set()
+                while True:
+                    w = stack.pop()
+                    on.discard(w)
+                    comp.add(w)
+                    if w == v:
+                        break
+                if len(comp) > 1 or v in succ[v]:
+                    out.append(comp)
+            if work:
+                u = work[-1][0]
+                low[u] = min(low[u], low[v])
+    return out
